@@ -1,12 +1,14 @@
 (* C01 — All writable filesystems implement one reference semantics.
    Proved part: the MemoryFS model (FS/Mem.v + the derived methods of FS/Base.v it uses)
    refines the reference semantics FS/Ref.v, for every reachable state and every argument,
-   for all calls that do not go through the directory walker; the walker-based calls
-   (copydir, makedirs, movedir onto an existing destination) and the other backends are
-   tied to the reference by the correspondence run only (C01_conformance_partial). *)
+   for all calls: the 23 calls that do not go through the directory walker (C01_conformance_partial),
+   makedirs, copydir and movedir (fast path and merge) in every non-degenerate case (destination not
+   an ancestor of the source, where the contract leaves the result open), on states whose names are
+   NUL-free (an invariant, C01_nn_*). The other backends and compositions are tied to the reference by
+   the correspondence run only. *)
 From Coq Require Import List NArith Bool.
 From PyFS Require Import Base.PyStr Base.Outcome FS.Tree FS.Ops FS.Ref FS.Agree FS.Mem FS.Wf
-     FS.RefineProofs.
+     FS.RefineProofs FS.RefineWalkLemmasMk FS.RefineWalkLemmasBfs FS.RefineWalkNn FS.RefineWalk.
 Import ListNotations.
 
 Theorem C01_wf_initial : wf empty_dir.
@@ -35,3 +37,79 @@ Theorem C01_movedir_fast_path_wf : forall src dst create pt s cs cd,
   wf (fst (mem_run (OMovedir src dst create pt) s)).
 Proof. exact mem_movedir_wf. Qed.
 Print Assumptions C01_movedir_fast_path_wf.
+
+(* ---- walker-based calls ---- *)
+Theorem C01_mem_makedirs_refines_ref :
+  forall (p : str) (recreate : bool) (s : node) (cs : list str),
+       wf s ->
+       rpath p = inl cs ->
+       agree (mem_run (OMakedirs p recreate) s) (ref_run (OMakedirs p recreate) s) = true.
+Proof. exact @mem_makedirs_refines_ref. Qed.
+Print Assumptions C01_mem_makedirs_refines_ref.
+
+Theorem C01_mem_makedirs_wf :
+  forall (p : str) (recreate : bool) (s : node) (cs : list str),
+       wf s -> rpath p = inl cs -> wf (fst (mem_run (OMakedirs p recreate) s)).
+Proof. exact @mem_makedirs_wf. Qed.
+Print Assumptions C01_mem_makedirs_wf.
+
+Theorem C01_mem_copydir_refines_ref :
+  forall (src dst : str) (create pt : bool) (s : node) (a b : list str),
+       wf s ->
+       nn s ->
+       rpath src = inl a ->
+       rpath dst = inl b ->
+       list_prefix b a = false ->
+       agree (mem_run (OCopydir src dst create pt) s) (ref_run (OCopydir src dst create pt) s) =
+       true.
+Proof. exact @mem_copydir_refines_ref. Qed.
+Print Assumptions C01_mem_copydir_refines_ref.
+
+Theorem C01_mem_copydir_wf :
+  forall (src dst : str) (create pt : bool) (s : node) (a b : list str),
+       wf s ->
+       nn s ->
+       rpath src = inl a ->
+       rpath dst = inl b ->
+       list_prefix b a = false ->
+       wf (fst (mem_run (OCopydir src dst create pt) s)) /\
+       nn (fst (mem_run (OCopydir src dst create pt) s)).
+Proof. exact @mem_copydir_wf. Qed.
+Print Assumptions C01_mem_copydir_wf.
+
+Theorem C01_mem_movedir_exist_refines_ref :
+  forall (src dst : str) (create pt : bool) (s : node) (a b : list str) (D : node),
+       wf s ->
+       nn s ->
+       rpath src = inl a ->
+       rpath dst = inl b ->
+       list_prefix b a = false ->
+       lookup s b = Some D ->
+       agree (mem_run (OMovedir src dst create pt) s) (ref_run (OMovedir src dst create pt) s) =
+       true.
+Proof. exact @mem_movedir_exist_refines_ref. Qed.
+Print Assumptions C01_mem_movedir_exist_refines_ref.
+
+Theorem C01_mem_movedir_refines_ref_nondegenerate :
+  forall (src dst : str) (create pt : bool) (s : node) (a b : list str),
+       wf s ->
+       nn s ->
+       rpath src = inl a ->
+       rpath dst = inl b ->
+       list_prefix b a = false ->
+       agree (mem_run (OMovedir src dst create pt) s) (ref_run (OMovedir src dst create pt) s) =
+       true /\
+       wf (fst (mem_run (OMovedir src dst create pt) s)) /\
+       nn (fst (mem_run (OMovedir src dst create pt) s)).
+Proof. exact @mem_movedir_refines_ref_nondegenerate. Qed.
+Print Assumptions C01_mem_movedir_refines_ref_nondegenerate.
+
+Theorem C01_nn_initial :
+  nn empty_dir.
+Proof. exact @nn_initial. Qed.
+Print Assumptions C01_nn_initial.
+
+Theorem C01_nn_preserved_covered :
+  forall (o : op) (s : node), wf s -> nn s -> covered o = true -> nn (fst (mem_run o s)).
+Proof. exact @nn_preserved_covered. Qed.
+Print Assumptions C01_nn_preserved_covered.
